@@ -22,6 +22,7 @@ META = {
   "leftover_any_state: the kernel state of the name before the clean-up is constructed directly in the model (segment absent / any size and bytes, lock semaphore absent / value 0..2, "
   "nobody attached) instead of being produced by kill sequences; zero-length leftovers are the open finding C07_crash_zero_size",
   "reentrant_*: two threads of one process; the second thread's whole call runs at the k-th allocator entry (table installed through p_mem_set_vtable) of the first one, one query per k; real SHA-1 on the concrete names alpha / bravo",
+  "hist*_fd_from_0: the model hands out descriptors starting at 0 (process with stdin closed) instead of 3",
   "lock_eintr_max2: sem_wait interrupted at a symbolic subset (<=2) of its invocations inside p_shm_lock; shm_names_*: see C06 names_len*_realkey",
   "allocator never fails (C18), EINTR only in lock_eintr_* (the rest: C19), printf empty"],
  "outside": ["overlapping p_shm_new calls of two threads at allocator entries after the first key derivation (entries > 10: those are p_semaphore_new's, decided by C06 reentrant_sem_new_*); overlaps at points that are not allocator entries", "kernel semantics themselves; real page protection (P_SHM_ACCESS_READONLY)", "pshm-sysv.c (not built on this platform; its segment lifetime - removed when the last process detaches - needs its own reference model; psemaphore-sysv.c is covered by C06 *_sysv)", "more than 2 processes, one handle per process, one name",
@@ -43,8 +44,9 @@ MANIFEST = {
 def pools(n):
     # every call may create at most one object of each kind
     return ["VK_NSHM=%d" % n, "VK_NSEM=%d" % n, "VK_NSEMH=%d" % (n + 1), "VK_NFD=%d" % (n + 1), "VK_NMAP=%d" % n]
-def hist(n, timeout=1500):
-    return Q("hist%d" % n, "harness/C07_hist.c", units=SHM_UNITS, models=KM, hdefs=["NOPS=%d" % n] + pools(n), includes=REDIR,
+def hist(n, timeout=1500, fd0=False):
+    return Q("hist%d%s" % (n, "_fd_from_0" if fd0 else ""), "harness/C07_hist.c", units=SHM_UNITS, models=KM,
+             hdefs=["NOPS=%d" % n] + pools(n) + (["VK_FD_BASE=0"] if fd0 else []), includes=REDIR,
              unwindset=dict(UW, **{"harness.0": n + 1}), timeout=timeout, funcs=FUNCS,
              bounds={"calls": n, "processes": 2, "sizes": "0..12 bytes = 0..3 model pages", "names": 1})
 def race(at, demo):
@@ -90,9 +92,9 @@ def names(tier):
     return qs
 def queries(tier):
     if tier == "quick":
-        qs = [hist(4), crash(3), crash(1, demo=True)]
+        qs = [hist(4), hist(3, fd0=True), crash(3), crash(1, demo=True)]
     else:
-        qs = [hist(4), hist(5, timeout=3000), crash(4), crash(1, demo=True)]
+        qs = [hist(4), hist(4, fd0=True), hist(5, timeout=3000), crash(4), crash(1, demo=True)]
     # Q's open before P's k-th system call: 1 shm_open, 2 ftruncate, 3 mmap, 4 close, 5 sem_open.  Positions 3..5 are the
     # known first-open race: while it is open one demonstration query runs, once fixed all positions are ordinary queries
     qs += names(tier) + [leftover(), lock_eintr(2)]
